@@ -121,9 +121,9 @@ Section XSpec.
       forallb (fun c => (cman c && obs_flagged b c) || mem_cert c (o_cache oa)) (o_cache ob);
       (* 13: a revoked certificate is not served any more (unless its renewal is under way elsewhere) *)
       forallb (fun c => locked_in ob (chead c) || negb (mem_cert c (o_cache oa))) R;
-      (* 14: the issuer is contacted only for the first names of revoked certificates *)
+      (* 14: the issuer is contacted only for the first names of revoked certificates, at most once for each *)
       forallb (fun n => (oiss ob n <=? oiss oa n) && (ofl ob n <=? ofl oa n) &&
-                        (((oiss oa n =? oiss ob n) && (ofl oa n =? ofl ob n)) || (0 <? heads_count n R))) (U k);
+                        (oiss oa n + ofl oa n <=? oiss ob n + ofl ob n + heads_count n R)) (U k);
       (* 15: storage changes only by such an issuance, to a new certificate for that name *)
       forallb (fun n => opt_cert_eqb (ost oa n) (ost ob n) ||
                         match ost oa n with
